@@ -75,5 +75,40 @@ def convert(paths, out_path, max_slots=128):
     out.close()
     return stats
 
+def convert_queues(paths, out_path, max_rings=64):
+    """Queue-level events (SqAdd, CqPollBegin, CqReload, CqEntry, CqPollEnd) with ring ids renamed to
+    slots (a slot per ring id as first seen; ids are not reused within a process)."""
+    out = open(out_path, 'w')
+    stats = {'events_out': 0, 'rings': 0}
+    for path in paths:
+        ring = {}
+        for line in open(path):
+            try:
+                e = json.loads(line)
+            except ValueError:
+                continue
+            ev = e['ev']
+            if ev == 'SharedDrop':
+                # The ring's shared state is freed: its address (the id) may be used by a later ring.
+                ring.pop(int(e['f'][0]), None)
+                continue
+            if ev not in ('SqAdd', 'CqPollBegin', 'CqReload', 'CqEntry', 'CqPollEnd'):
+                continue
+            f = [int(x) for x in e['f']]
+            if f[0] not in ring:
+                stats['rings'] += 1
+                ring[f[0]] = stats['rings']
+                if ring[f[0]] > max_rings:
+                    raise SystemExit('more than %d rings' % max_rings)
+            r = ring[f[0]]
+            if any(v >= 2 ** 31 for v in (f[1:4] if ev == 'SqAdd' else f[1:3])):
+                raise SystemExit('counter value beyond the range of TLC integers in a recorded run')
+            name = {'SqAdd': 'SqAdd', 'CqPollBegin': 'PollBegin', 'CqReload': 'Reload', 'CqEntry': 'Entry', 'CqPollEnd': 'PollEnd'}[ev]
+            out.write(json.dumps({'ev': name, 'r': r, 'a': f[1], 'b': f[2], 'c': f[3] if ev == 'SqAdd' else 0}) + '\n')
+            stats['events_out'] += 1
+    out.close()
+    return stats
+
+
 if __name__ == '__main__':
     print(json.dumps(convert(sys.argv[1:-1], sys.argv[-1])))
